@@ -2,7 +2,7 @@
    dispatch <component> <request> : val.  Definitions only. *)
 From Verif Require Import Base.Tactics Base.ZList Base.Val.
 From Verif Require Import Base.Str.
-From Verif Require Import Model.BufReaderModel Model.RangeModel Model.IsoTimeModel Model.TimingModel.
+From Verif Require Import Model.BufReaderModel Model.RangeModel Model.IsoTimeModel Model.TimingModel Model.SegModel.
 
 (* ---- C20 ---- request: (file off bs maxb (size?) mode ops) *)
 Definition c20_op (v : val) : op :=
@@ -95,8 +95,42 @@ Definition c08_run (v : val) : val :=
   VL [VI (l_ast L); VI (l_elapsed L); VI (l_tsbd L); VI (l_fta L); vopt_int (l_mup L);
       VI (l_publish L); VI (l_leeway L)].
 
+(* ---- C02/C09/C01/C06 ---- request: (mode rep args...)  rep = (ts durs start_number seg_dur lr start_time) *)
+Definition seg_rep (v : val) : rep :=
+  {| r_ts := vint (vnth 0 v); r_durs := vints (vnth 1 v); r_start_number := vint (vnth 2 v);
+     r_seg_dur := vint (vnth 3 v); r_lr := vint (vnth 4 v); r_start_time := vint (vnth 5 v) |}.
+Definition seg_entries (l : list (Z * Z * Z)) : val :=
+  VL (map (fun e => match e with (t, d, m) => VL [VI t; VI d; VI m] end) l).
+Definition seg_timing (v : val) : timing :=
+  {| t_live := 0 <? vint (vnth 0 v); t_elapsed := vint (vnth 1 v); t_tsbd := vint (vnth 2 v);
+     t_fta := vint (vnth 3 v); t_leeway := vint (vnth 4 v) |}.
+Definition seg_run (v : val) : val :=
+  let mode := vint (vnth 0 v) in
+  let r := seg_rep (vnth 1 v) in
+  if mode =? 0 then
+    match get_segment_index r (vint (vnth 2 v)) with (m, s, o) => VL [VI m; VI s; VI o] end
+  else if mode =? 1 then seg_entries (live_timeline r (vint (vnth 2 v)) (vint (vnth 3 v)))
+  else if mode =? 2 then seg_entries (vod_timeline r)
+  else if mode =? 3 then
+    match first_last_live r (vint (vnth 2 v)) (vint (vnth 3 v)) with (a, b) => VL [VI a; VI b] end
+  else if mode =? 4 then
+    match serve r (seg_timing (vnth 2 v)) (as_opt_int (vnth 3 v)) (as_opt_int (vnth 4 v)) with
+    | Some (m, tfdt, num, d) => VL [VI m; VI tfdt; VI num; VI d]
+    | None => VL []
+    end
+  else if mode =? 5 then
+    match number_and_time r (seg_timing (vnth 2 v)) (as_opt_int (vnth 3 v)) (as_opt_int (vnth 4 v)) with
+    | Some (num, m, o) => VL [VI num; VI m; VI o]
+    | None => VL []
+    end
+  else if mode =? 6 then
+    VL (map (fun ab => VL [VI (fst ab); VI (snd ab)])
+            (segment_list (map (fun v => (vint (vnth 0 v), vint (vnth 1 v))) (vlist (vnth 1 v)))))
+  else verr 998.
+
 Definition dispatch (comp : Z) (v : val) : val :=
   if comp =? 20 then c20_run v
+  else if comp =? 2 then seg_run v
   else if comp =? 8 then c08_run v
   else if comp =? 13 then c13_run v
   else if comp =? 19 then c19_run v
